@@ -159,6 +159,9 @@ def gen_case(rng, tier):
         "X0": L(X0), "X1": L(X1), "y0": y0, "ys": ys, "stat_rows": stat_rows,
         "xlayout": rng.choice(["C", "C", "F", "strided", "transposed"]),
         "xbig": xbig,
+        # memory-mapped / shared data is typically handed over read-only: a library that only
+        # reads its inputs never notices
+        "readonly": rng.random() < 0.1,
         "init_c": L(init_c), "rU": rng.randint(1, 2), "rV": rng.randint(1, 2),
         "dim_t": rng.randint(1, 2), "ops": ops,
     }
@@ -196,6 +199,9 @@ class Pool:
                                 + rb.randn(case["xbig"], self.X0.shape[1]) * 0.1)
         else:
             self.Xbig = self.X1
+        if case.get("readonly"):
+            for arr in (self.X0, self.X1, self.Xbig):
+                arr.flags.writeable = False
         self.y0_list = list(case["y0"])
         self.y0_arr = np.array(case["y0"])
         self.ys_arr = np.array(case["ys"])
@@ -215,6 +221,13 @@ class Pool:
         self.stats = [self.ubm.acc_stats(self.X0[rows].copy() if rows else
                                          np.zeros((0, self.X0.shape[1])))
                       for rows in case["stat_rows"]]
+        if case.get("readonly"):
+            self.init_c.flags.writeable = False
+            self.offsets.flags.writeable = False
+            self.model_means.flags.writeable = False
+            for st in self.stats:
+                for f in (st.n, st.sum_px, st.sum_pxx):
+                    f.flags.writeable = False
         self.models = {}
 
     def X(self, name):
@@ -532,6 +545,8 @@ def run_case(case, replay=None):
     for i, o in enumerate(case["ops"]):
         name = o["op"]
         if name == "scribble":
+            if case.get("readonly"):
+                continue  # the caller cannot write to these buffers either
             before_models = pool.param_digests()
             restore = _scribble(pool, o)
             rec.faults["F7_scribble_" + o["target"]] = rec.faults.get("F7_scribble_" + o["target"], 0) + 1
@@ -584,7 +599,11 @@ def run_case(case, replay=None):
                     r, produced = _call(pool, o, rec, f"op{i}")
             except HarnessError:
                 raise
-            except Exception:
+            except Exception as e:
+                if case.get("readonly") and "read-only" in repr(e):
+                    return Result.violation("caller-input-written",
+                                            {"after_op": i, "op": name,
+                                             "exception": repr(e)[:200]}, **rec.fields())
                 # C19 says nothing about a call being refused (that is C11/C13 territory);
                 # but a refused call must still leave the caller's objects untouched (I1 below)
                 rec.probe("call_raised_" + name)
